@@ -35,6 +35,12 @@ int main()
 	TRY("Flatten_List({})", std::vector<std::vector<double>> v; auto f = Flatten_List(v); printf("%zu", f.size()));
 	TRY("Lists_Equal({}, {})", bool b = Lists_Equal(e, e); printf("%d", b));
 	TRY("Integrate_Gauss_Legendre(f, 0, 1, 0)", auto f = [](double x) { return x; }; volatile double d = Integrate_Gauss_Legendre(f, 0.0, 1.0, 0); printf("%g", (double) d));
+	TRY("PDF_Chi_Square(1, -2)", volatile double d = PDF_Chi_Square(1.0, -2.0); printf("%g", (double) d));
+	TRY("CDF_Chi_Square(1, -2)", volatile double d = CDF_Chi_Square(1.0, -2.0); printf("%g", (double) d));
+	TRY("CDF_Chi_Square(1, -3)", volatile double d = CDF_Chi_Square(1.0, -3.0); printf("%g", (double) d));
+	TRY("Sample_Gauss(sigma = -1)", std::mt19937 g(1); volatile double d = Sample_Gauss(g, 0.0, -1.0); printf("%g", (double) d));
+	TRY("Sample_Uniform(1, 0)", std::mt19937 g(1); volatile double d = Sample_Uniform(g, 1.0, 0.0); printf("%g", (double) d));
+	TRY("Sample_Poisson(-1)", std::mt19937 g(1); volatile unsigned d = Sample_Poisson(g, -1.0); printf("%u", (unsigned) d));
 	TRY("Find_Indices", auto i = Find_Indices(e, 1.0); printf("%zu", i.size()));
 	return 0;
 }
